@@ -21,6 +21,15 @@ func (r *Run) call(st *State, fr *Frame, x *ssa.Call, b *ssa.BasicBlock, idx int
 				st.calls = map[string]int{}
 			}
 			st.calls[bi.Name()]++
+			if fr.spec != nil {
+				for _, c := range fr.spec.ClausesOf("ordered") {
+					for _, f := range strings.Fields(strings.ReplaceAll(c.Text, ",", " ")) {
+						if f == bi.Name() {
+							r.oblige(st, fmt.Sprintf("ordered(%s)", f), c.Props, r.v.pos(x.Pos()), BoolLit(!inMapRangeLoop(fr.fn, b)))
+						}
+					}
+				}
+			}
 		}
 		fr.regs[x] = r.builtin(st, fr, x, bi)
 		return true
@@ -53,6 +62,17 @@ func (r *Run) call(st *State, fr *Frame, x *ssa.Call, b *ssa.BasicBlock, idx int
 				st.calls = map[string]int{}
 			}
 			st.calls[nm]++
+			// "ordered F": a call of F is never made from inside a loop that ranges over a map (whose iteration order
+			// the Go runtime randomises): the sequence of such calls is then the same on every run
+			if fr.spec != nil {
+				for _, c := range fr.spec.ClausesOf("ordered") {
+					for _, f := range strings.Fields(strings.ReplaceAll(c.Text, ",", " ")) {
+						if f == nm {
+							r.oblige(st, fmt.Sprintf("ordered(%s)", nm), c.Props, r.v.pos(x.Pos()), BoolLit(!inMapRangeLoop(fr.fn, b)))
+						}
+					}
+				}
+			}
 		}
 	}
 	if fr.depth == 0 && fr.spec != nil {
@@ -715,4 +735,46 @@ func dynCalleeName(v ssa.Value) string {
 		return x.Name()
 	}
 	return ""
+}
+
+// inMapRangeLoop: does block b belong to the natural loop of a header that advances a map iterator?
+func inMapRangeLoop(fn *ssa.Function, b *ssa.BasicBlock) bool {
+	for _, h := range fn.Blocks {
+		isMapHdr := false
+		for _, in := range h.Instrs {
+			if nx, ok := in.(*ssa.Next); ok && !nx.IsString {
+				if rg, ok := nx.Iter.(*ssa.Range); ok {
+					if _, isMap := types.Unalias(rg.X.Type()).Underlying().(*types.Map); isMap {
+						isMapHdr = true
+					}
+				}
+			}
+		}
+		if !isMapHdr {
+			continue
+		}
+		// natural loop of h: h plus every block that reaches a back edge t->h (h dominates t) without passing h
+		body := map[*ssa.BasicBlock]bool{h: true}
+		var work []*ssa.BasicBlock
+		for _, t := range h.Preds {
+			if h.Dominates(t) && !body[t] {
+				body[t] = true
+				work = append(work, t)
+			}
+		}
+		for len(work) > 0 {
+			t := work[len(work)-1]
+			work = work[:len(work)-1]
+			for _, p := range t.Preds {
+				if !body[p] {
+					body[p] = true
+					work = append(work, p)
+				}
+			}
+		}
+		if body[b] && b != h {
+			return true
+		}
+	}
+	return false
 }
